@@ -35,12 +35,12 @@ func init() {
 // ---------- ordered document builder (emitted through gnode of c14.go) ----------
 
 func gT(text string) *gnode { return &gnode{kind: 0, text: text} }
-func gM(kv ...interface{}) *gnode {
+func c08gM(c08kv ...interface{}) *gnode {
 	g := &gnode{kind: 1}
-	for i := 0; i+1 < len(kv); i += 2 {
-		k := kv[i].(string)
+	for i := 0; i+1 < len(c08kv); i += 2 {
+		k := c08kv[i].(string)
 		var v *gnode
-		switch x := kv[i+1].(type) {
+		switch x := c08kv[i+1].(type) {
 		case *gnode:
 			v = x
 		case string:
@@ -54,7 +54,7 @@ func gM(kv ...interface{}) *gnode {
 	}
 	return g
 }
-func gS(vals ...*gnode) *gnode { return &gnode{kind: 2, vals: vals} }
+func c08gS(vals ...*gnode) *gnode { return &gnode{kind: 2, vals: vals} }
 func (g *gnode) set(k string, v *gnode) {
 	for i := range g.keys {
 		if g.keys[i] == k {
@@ -75,7 +75,7 @@ func (g *gnode) del(k string) {
 	}
 }
 
-type kv struct {
+type c08kv struct {
 	K string `json:"k"`
 	V string `json:"v"`
 }
@@ -98,7 +98,7 @@ func yamlStr(s string) string {
 	return strconv.Quote(s)
 }
 
-func labelMapNode(l []kv, rng *Rng) *gnode {
+func labelMapNode(l []c08kv, rng *Rng) *gnode {
 	g := &gnode{kind: 1}
 	for _, e := range l {
 		txt := yamlStr(e.V)
@@ -111,9 +111,9 @@ func labelMapNode(l []kv, rng *Rng) *gnode {
 	return g
 }
 
-func genPairs(rng *Rng, lo, hi int) []kv {
+func genPairs(rng *Rng, lo, hi int) []c08kv {
 	n := lo + rng.Intn(hi-lo+1)
-	out := []kv{}
+	out := []c08kv{}
 	used := map[string]bool{}
 	for i := 0; i < n; i++ {
 		k := rng.Pick(c08Keys)
@@ -121,14 +121,14 @@ func genPairs(rng *Rng, lo, hi int) []kv {
 			continue
 		}
 		used[k] = true
-		out = append(out, kv{k, rng.Pick(c08Vals)})
+		out = append(out, c08kv{k, rng.Pick(c08Vals)})
 	}
 	return out
 }
 
 // labelSlot wraps a label list into the shape found at a label location:
 // mostly a mapping; sometimes absent / {} / null.
-func labelSlot(rng *Rng, l []kv) *gnode {
+func labelSlot(rng *Rng, l []c08kv) *gnode {
 	switch r := rng.Intn(100); {
 	case r < 78:
 		return labelMapNode(l, rng)
@@ -168,20 +168,20 @@ var c08ApiVersions = map[string][]string{
 	"Widget":                {"example.com/v1"},
 }
 
-func podTemplate(rng *Rng, podLabels []kv) *gnode {
-	meta := gM()
+func podTemplate(rng *Rng, podLabels []c08kv) *gnode {
+	meta := c08gM()
 	if ls := labelSlot(rng, podLabels); ls != nil {
 		meta.set("labels", ls)
 	}
 	if rng.Chance(15) {
 		meta.set("annotations", labelMapNode(genPairs(rng, 1, 1), nil))
 	}
-	spec := gM("containers", gS(gM("name", "c", "image", "nginx")))
+	spec := c08gM("containers", c08gS(c08gM("name", "c", "image", "nginx")))
 	if rng.Chance(10) {
-		spec.set("affinity", gM("podAntiAffinity", gM("requiredDuringSchedulingIgnoredDuringExecution",
-			gS(gM("labelSelector", gM("matchLabels", labelMapNode(podLabels, nil)), "topologyKey", "kubernetes.io/hostname")))))
+		spec.set("affinity", c08gM("podAntiAffinity", c08gM("requiredDuringSchedulingIgnoredDuringExecution",
+			c08gS(c08gM("labelSelector", c08gM("matchLabels", labelMapNode(podLabels, nil)), "topologyKey", "kubernetes.io/hostname")))))
 	}
-	t := gM()
+	t := c08gM()
 	switch r := rng.Intn(100); {
 	case r < 90:
 		t.set("metadata", meta)
@@ -196,8 +196,8 @@ func podTemplate(rng *Rng, podLabels []kv) *gnode {
 	return t
 }
 
-func subsetPairs(rng *Rng, l []kv) []kv {
-	out := []kv{}
+func subsetPairs(rng *Rng, l []c08kv) []c08kv {
+	out := []c08kv{}
 	for _, e := range l {
 		if rng.Chance(70) {
 			out = append(out, e)
@@ -211,9 +211,9 @@ func subsetPairs(rng *Rng, l []kv) []kv {
 
 // genRes builds one resource. pods: label sets of workloads generated earlier in the same layer
 // (selecting kinds pick a subset of one of them so that selects_in holds often).
-func genRes(rng *Rng, kind, name string, pods *[][]kv) c08Res {
+func genRes(rng *Rng, kind, name string, pods *[][]c08kv) c08Res {
 	av := rng.Pick(c08ApiVersions[kind])
-	meta := gM("name", name)
+	meta := c08gM("name", name)
 	if rng.Chance(55) {
 		if ls := labelSlot(rng, genPairs(rng, 0, 2)); ls != nil {
 			meta.set("labels", ls)
@@ -224,27 +224,27 @@ func genRes(rng *Rng, kind, name string, pods *[][]kv) c08Res {
 			meta.set("annotations", ls)
 		}
 	}
-	doc := gM("apiVersion", av, "kind", kind, "metadata", meta)
+	doc := c08gM("apiVersion", av, "kind", kind, "metadata", meta)
 	podLabels := genPairs(rng, 1, 2)
 	selLabels := subsetPairs(rng, podLabels)
 	if rng.Chance(10) {
 		selLabels = genPairs(rng, 1, 2) // possibly inconsistent with the template
 	}
-	pickTarget := func() []kv {
+	pickTarget := func() []c08kv {
 		if len(*pods) > 0 && rng.Chance(80) {
 			return subsetPairs(rng, (*pods)[rng.Intn(len(*pods))])
 		}
 		return genPairs(rng, 0, 2)
 	}
-	matchSel := func(l []kv) *gnode {
-		s := gM()
+	matchSel := func(l []c08kv) *gnode {
+		s := c08gM()
 		switch r := rng.Intn(100); {
 		case r < 80:
 			if ls := labelSlot(rng, l); ls != nil {
 				s.set("matchLabels", ls)
 			}
 		case r < 90:
-			s.set("matchExpressions", gS(gM("key", "app", "operator", "Exists")))
+			s.set("matchExpressions", c08gS(c08gM("key", "app", "operator", "Exists")))
 			if ls := labelSlot(rng, l); ls != nil {
 				s.set("matchLabels", ls)
 			}
@@ -258,7 +258,7 @@ func genRes(rng *Rng, kind, name string, pods *[][]kv) c08Res {
 	}
 	switch kind {
 	case "Deployment", "StatefulSet", "DaemonSet", "ReplicaSet":
-		spec := gM()
+		spec := c08gM()
 		if kind != "DaemonSet" && rng.Chance(50) {
 			spec.set("replicas", gT("2"))
 		}
@@ -269,19 +269,19 @@ func genRes(rng *Rng, kind, name string, pods *[][]kv) c08Res {
 			spec.set("template", podTemplate(rng, podLabels))
 		}
 		if kind == "StatefulSet" && rng.Chance(40) {
-			vm := gM("name", "data")
+			vm := c08gM("name", "data")
 			if rng.Chance(30) {
 				vm.set("labels", labelMapNode(genPairs(rng, 1, 1), nil))
 			}
-			spec.set("volumeClaimTemplates", gS(gM("metadata", vm, "spec", gM("storageClassName", "std"))))
+			spec.set("volumeClaimTemplates", c08gS(c08gM("metadata", vm, "spec", c08gM("storageClassName", "std"))))
 		}
 		if kind == "Deployment" && rng.Chance(10) {
-			spec.set("strategy", gM("type", "Recreate"))
+			spec.set("strategy", c08gM("type", "Recreate"))
 		}
 		doc.set("spec", spec)
 		*pods = append(*pods, podLabels)
 	case "Job":
-		spec := gM()
+		spec := c08gM()
 		if rng.Chance(35) {
 			spec.set("selector", matchSel(selLabels))
 		}
@@ -289,17 +289,17 @@ func genRes(rng *Rng, kind, name string, pods *[][]kv) c08Res {
 		doc.set("spec", spec)
 		*pods = append(*pods, podLabels)
 	case "CronJob":
-		jspec := gM()
+		jspec := c08gM()
 		if rng.Chance(30) {
 			jspec.set("selector", matchSel(selLabels))
 		}
 		jspec.set("template", podTemplate(rng, podLabels))
-		jt := gM()
+		jt := c08gM()
 		if rng.Chance(30) {
-			jt.set("metadata", gM("labels", labelMapNode(genPairs(rng, 1, 1), nil)))
+			jt.set("metadata", c08gM("labels", labelMapNode(genPairs(rng, 1, 1), nil)))
 		}
 		jt.set("spec", jspec)
-		doc.set("spec", gM("schedule", `"* * * * *"`, "jobTemplate", jt))
+		doc.set("spec", c08gM("schedule", `"* * * * *"`, "jobTemplate", jt))
 		*pods = append(*pods, podLabels)
 	case "Pod":
 		if ls := labelSlot(rng, podLabels); ls != nil {
@@ -307,10 +307,10 @@ func genRes(rng *Rng, kind, name string, pods *[][]kv) c08Res {
 		} else {
 			meta.del("labels")
 		}
-		doc.set("spec", gM("containers", gS(gM("name", "c", "image", "nginx"))))
+		doc.set("spec", c08gM("containers", c08gS(c08gM("name", "c", "image", "nginx"))))
 		*pods = append(*pods, podLabels)
 	case "ReplicationController":
-		spec := gM()
+		spec := c08gM()
 		if rng.Chance(85) {
 			if ls := labelSlot(rng, selLabels); ls != nil {
 				spec.set("selector", ls)
@@ -320,7 +320,7 @@ func genRes(rng *Rng, kind, name string, pods *[][]kv) c08Res {
 		doc.set("spec", spec)
 		*pods = append(*pods, podLabels)
 	case "Service":
-		spec := gM("ports", gS(gM("port", "80")))
+		spec := c08gM("ports", c08gS(c08gM("port", "80")))
 		if rng.Chance(90) {
 			if ls := labelSlot(rng, pickTarget()); ls != nil {
 				spec.set("selector", ls)
@@ -330,20 +330,20 @@ func genRes(rng *Rng, kind, name string, pods *[][]kv) c08Res {
 			doc.set("spec", spec)
 		}
 	case "NetworkPolicy":
-		spec := gM("podSelector", matchSel(pickTarget()))
+		spec := c08gM("podSelector", matchSel(pickTarget()))
 		if rng.Chance(40) {
-			spec.set("ingress", gS(gM("from", gS(gM("podSelector", matchSel(pickTarget()))))))
+			spec.set("ingress", c08gS(c08gM("from", c08gS(c08gM("podSelector", matchSel(pickTarget()))))))
 		}
 		if rng.Chance(20) {
-			spec.set("egress", gS(gM("to", gS(gM("podSelector", matchSel(pickTarget()))))))
+			spec.set("egress", c08gS(c08gM("to", c08gS(c08gM("podSelector", matchSel(pickTarget()))))))
 		}
 		doc.set("spec", spec)
 	case "PodDisruptionBudget":
-		doc.set("spec", gM("minAvailable", "1", "selector", matchSel(pickTarget())))
+		doc.set("spec", c08gM("minAvailable", "1", "selector", matchSel(pickTarget())))
 	case "ConfigMap":
-		doc.set("data", gM("k", "v"))
+		doc.set("data", c08gM("k", "v"))
 	case "Widget":
-		doc.set("spec", gM("selector", matchSel(selLabels), "template", podTemplate(rng, podLabels)))
+		doc.set("spec", c08gM("selector", matchSel(selLabels), "template", podTemplate(rng, podLabels)))
 	}
 	if rng.Chance(8) {
 		perturb08(rng, doc)
@@ -376,7 +376,7 @@ func perturb08(rng *Rng, doc *gnode) {
 			if depth == 0 && cur.keys[i] == "metadata" {
 				return
 			}
-			odd := []*gnode{gT("null"), gT("{}"), gT("[]"), gT("foo"), gS(gM("a", "b")), gT(""), gS(gT("x"))}
+			odd := []*gnode{gT("null"), gT("{}"), gT("[]"), gT("foo"), c08gS(c08gM("a", "b")), gT(""), c08gS(gT("x"))}
 			cur.vals[i] = odd[rng.Intn(len(odd))]
 			return
 		}
@@ -386,7 +386,7 @@ func perturb08(rng *Rng, doc *gnode) {
 
 // ---------- directives ----------
 
-type fsSpec struct {
+type c08fsSpec struct {
 	Group   string `json:"group,omitempty"`
 	Version string `json:"version,omitempty"`
 	Kind    string `json:"kind,omitempty"`
@@ -395,16 +395,16 @@ type fsSpec struct {
 }
 
 type c08Label struct {
-	Pairs            []kv     `json:"pairs"`
+	Pairs            []c08kv     `json:"pairs"`
 	IncludeSelectors bool     `json:"includeSelectors,omitempty"`
 	IncludeTemplates bool     `json:"includeTemplates,omitempty"`
-	Fields           []fsSpec `json:"fields,omitempty"`
+	Fields           []c08fsSpec `json:"fields,omitempty"`
 }
 
 type c08Dirs struct {
 	Labels            []c08Label `json:"labels,omitempty"`
-	CommonLabels      []kv       `json:"commonLabels,omitempty"`
-	CommonAnnotations []kv       `json:"commonAnnotations,omitempty"`
+	CommonLabels      []c08kv       `json:"commonLabels,omitempty"`
+	CommonAnnotations []c08kv       `json:"commonAnnotations,omitempty"`
 }
 
 type c08Tree struct {
@@ -413,7 +413,7 @@ type c08Tree struct {
 	Bases []*c08Tree `json:"bases,omitempty"`
 }
 
-var c08CustomFields = []fsSpec{
+var c08CustomFields = []c08fsSpec{
 	{Group: "apps", Kind: "Deployment", Path: "spec/template/metadata/labels", Create: true}, // narrower twin of a default row
 	{Path: "metadata/labels", Create: false},                                                  // conflicts with the default row
 	{Kind: "Deployment", Path: "spec/selector/matchLabels", Create: false},                    // conflicts when selectors are included
@@ -465,7 +465,7 @@ func genDirs(rng *Rng, allowFields bool) c08Dirs {
 	return d
 }
 
-func genTree(rng *Rng, depth int, counter *int, top bool) *c08Tree {
+func c08genTree(rng *Rng, depth int, counter *int, top bool) *c08Tree {
 	t := &c08Tree{Dirs: genDirs(rng, true)}
 	if depth > 1 {
 		nb := 0
@@ -479,14 +479,14 @@ func genTree(rng *Rng, depth int, counter *int, top bool) *c08Tree {
 			nb = 1
 		}
 		for i := 0; i < nb; i++ {
-			t.Bases = append(t.Bases, genTree(rng, depth-1, counter, false))
+			t.Bases = append(t.Bases, c08genTree(rng, depth-1, counter, false))
 		}
 	}
 	n := rng.Intn(4)
 	if len(t.Bases) == 0 && n == 0 {
 		n = 1 + rng.Intn(3)
 	}
-	pods := [][]kv{}
+	pods := [][]c08kv{}
 	for i := 0; i < n; i++ {
 		kind := rng.Pick(c08Kinds)
 		// selecting kinds after at least one workload, mostly
@@ -502,11 +502,11 @@ func genTree(rng *Rng, depth int, counter *int, top bool) *c08Tree {
 
 // ---------- writing the tree to an in-memory file system ----------
 
-func q(s string) string { return strconv.Quote(s) }
+func c08q(s string) string { return strconv.Quote(s) }
 
-func pairsYaml(b *strings.Builder, indent string, l []kv) {
+func pairsYaml(b *strings.Builder, indent string, l []c08kv) {
 	for _, e := range l {
-		fmt.Fprintf(b, "%s%s: %s\n", indent, q(e.K), q(e.V))
+		fmt.Fprintf(b, "%s%s: %s\n", indent, c08q(e.K), c08q(e.V))
 	}
 }
 
@@ -545,15 +545,15 @@ func kustomizationYaml(t *c08Tree) string {
 			if len(e.Fields) > 0 {
 				b.WriteString("  fields:\n")
 				for _, f := range e.Fields {
-					fmt.Fprintf(&b, "  - path: %s\n", q(f.Path))
+					fmt.Fprintf(&b, "  - path: %s\n", c08q(f.Path))
 					if f.Group != "" {
-						fmt.Fprintf(&b, "    group: %s\n", q(f.Group))
+						fmt.Fprintf(&b, "    group: %s\n", c08q(f.Group))
 					}
 					if f.Version != "" {
-						fmt.Fprintf(&b, "    version: %s\n", q(f.Version))
+						fmt.Fprintf(&b, "    version: %s\n", c08q(f.Version))
 					}
 					if f.Kind != "" {
-						fmt.Fprintf(&b, "    kind: %s\n", q(f.Kind))
+						fmt.Fprintf(&b, "    kind: %s\n", c08q(f.Kind))
 					}
 					if f.Create {
 						b.WriteString("    create: true\n")
@@ -643,7 +643,7 @@ func runBuild(t *c08Tree) buildOut {
 
 // ---------- Coq terms ----------
 
-func coqPairs(l []kv) string {
+func c08coqPairs(l []c08kv) string {
 	parts := make([]string, len(l))
 	for i, e := range l {
 		parts[i] = fmt.Sprintf("(%s, %s)", coqStr(e.K), coqStr(e.V))
@@ -651,11 +651,11 @@ func coqPairs(l []kv) string {
 	return "[" + strings.Join(parts, "; ") + "]"
 }
 
-func coqFs(f fsSpec) string {
+func coqFs(f c08fsSpec) string {
 	return fmt.Sprintf("(mkFs %s %s %s %s %s)", coqStr(f.Group), coqStr(f.Version), coqStr(f.Kind), coqStr(f.Path), coqBool(f.Create))
 }
 
-func coqFsList(l []fsSpec) string {
+func coqFsList(l []c08fsSpec) string {
 	parts := make([]string, len(l))
 	for i, f := range l {
 		parts[i] = coqFs(f)
@@ -666,12 +666,12 @@ func coqFsList(l []fsSpec) string {
 func coqDirs(d c08Dirs) string {
 	ls := make([]string, len(d.Labels))
 	for i, e := range d.Labels {
-		ls[i] = fmt.Sprintf("(mkLD %s %s %s %s)", coqPairs(e.Pairs), coqBool(e.IncludeSelectors), coqBool(e.IncludeTemplates), coqFsList(e.Fields))
+		ls[i] = fmt.Sprintf("(mkLD %s %s %s %s)", c08coqPairs(e.Pairs), coqBool(e.IncludeSelectors), coqBool(e.IncludeTemplates), coqFsList(e.Fields))
 	}
-	return fmt.Sprintf("(mkDirs [%s] %s %s)", strings.Join(ls, "; "), coqPairs(d.CommonLabels), coqPairs(d.CommonAnnotations))
+	return fmt.Sprintf("(mkDirs [%s] %s %s)", strings.Join(ls, "; "), c08coqPairs(d.CommonLabels), c08coqPairs(d.CommonAnnotations))
 }
 
-func coqLayer(t *c08Tree) (string, bool) {
+func c08coqLayer(t *c08Tree) (string, bool) {
 	own := []string{}
 	for _, r := range t.Own {
 		n, err := kyaml.Parse(r.Yaml)
@@ -686,7 +686,7 @@ func coqLayer(t *c08Tree) (string, bool) {
 	}
 	bases := []string{}
 	for _, b := range t.Bases {
-		s, ok := coqLayer(b)
+		s, ok := c08coqLayer(b)
 		if !ok {
 			return "", false
 		}
@@ -718,18 +718,18 @@ func getAt(n *kyaml.Node, path []string) *kyaml.Node {
 	return n
 }
 
-func lmapOf(n *kyaml.Node) []kv {
-	out := []kv{}
+func lmapOf(n *kyaml.Node) []c08kv {
+	out := []c08kv{}
 	if n == nil || n.Kind != kyaml.MappingNode {
 		return out
 	}
 	for i := 0; i+1 < len(n.Content); i += 2 {
-		out = append(out, kv{n.Content[i].Value, n.Content[i+1].Value})
+		out = append(out, c08kv{n.Content[i].Value, n.Content[i+1].Value})
 	}
 	return out
 }
 
-func lookupKV(l []kv, k string) (string, bool) {
+func lookupKV(l []c08kv, k string) (string, bool) {
 	for _, e := range l {
 		if e.K == k {
 			return e.V, true
@@ -739,7 +739,7 @@ func lookupKV(l []kv, k string) (string, bool) {
 }
 
 // subKV: every requirement of s is met by l; returns the first offending key.
-func subKV(s, l []kv) (bool, string) {
+func subKV(s, l []c08kv) (bool, string) {
 	for _, e := range s {
 		v, _ := lookupKV(s, e.K)
 		w, ok := lookupKV(l, e.K)
@@ -772,17 +772,17 @@ func kindOfNode(n *kyaml.Node) string {
 	return k.Value
 }
 
-func selOf(n *kyaml.Node) []kv {
+func selOf(n *kyaml.Node) []c08kv {
 	p, ok := selPaths[kindOfNode(n)]
 	if !ok {
-		return []kv{}
+		return []c08kv{}
 	}
 	return lmapOf(getAt(n, strings.Split(p, "/")))
 }
-func podLabelsOf(n *kyaml.Node) []kv {
+func podLabelsOf(n *kyaml.Node) []c08kv {
 	p, ok := tmplPaths[kindOfNode(n)]
 	if !ok {
-		return []kv{}
+		return []c08kv{}
 	}
 	return lmapOf(getAt(n, strings.Split(p, "/")))
 }
@@ -883,10 +883,10 @@ func sameChain(a, b flatRes) bool {
 
 // expectedLabels: the label map a location must end with when every label directive of the chain
 // reaches it (which = 0 metadata, 1 pod template): sorted keys per directive, outermost last.
-func expectedLabels(in []kv, ch []c08Dirs, which int) []kv {
-	cur := append([]kv{}, in...)
-	apply := func(l []kv) {
-		s := append([]kv{}, l...)
+func expectedLabels(in []c08kv, ch []c08Dirs, which int) []c08kv {
+	cur := append([]c08kv{}, in...)
+	apply := func(l []c08kv) {
+		s := append([]c08kv{}, l...)
 		sort.Slice(s, func(i, j int) bool { return s[i].K < s[j].K })
 		for _, e := range s {
 			found := false
@@ -916,7 +916,7 @@ func expectedLabels(in []kv, ch []c08Dirs, which int) []kv {
 // keySetTwice: two directives of the chain set the key to different values.
 func keySetTwice(ch []c08Dirs, key string) bool {
 	vals := []string{}
-	add := func(l []kv) {
+	add := func(l []c08kv) {
 		if v, ok := lookupKV(l, key); ok {
 			vals = append(vals, v)
 		}
@@ -935,7 +935,7 @@ func keySetTwice(ch []c08Dirs, key string) bool {
 	return false
 }
 
-func firstDiffKey(want, got []kv) string {
+func firstDiffKey(want, got []c08kv) string {
 	for _, e := range want {
 		if v, ok := lookupKV(got, e.K); !ok || v != e.V {
 			return e.K
@@ -987,7 +987,7 @@ func selCovered(n *kyaml.Node) bool {
 	return false
 }
 
-func kvEq(a, b []kv) bool {
+func kvEq(a, b []c08kv) bool {
 	if len(a) != len(b) {
 		return false
 	}
@@ -1055,7 +1055,7 @@ func oracles08(r *Run, t *c08Tree, flat []flatRes, bo buildOut) {
 		}
 		ios = append(ios, io{fr, in.YNode(), out.YNode()})
 	}
-	classify := func(law string, fr flatRes, key string, selIn []kv) string {
+	classify := func(law string, fr flatRes, key string, selIn []c08kv) string {
 		if keySetTwice(fr.Chain, key) {
 			// the key is set by two directives of the chain with different values: the entries the first one
 			// created share one yaml.Node, the second one overwrites all of them
@@ -1076,7 +1076,7 @@ func oracles08(r *Run, t *c08Tree, flat []flatRes, bo buildOut) {
 				r.Count("oracle", "own_selector")
 				if ok, key := subKV(selOf(x.out), podLabelsOf(x.out)); !ok {
 					report("own_selector", classify("own_selector", x.fr, key, selIn),
-						fmt.Sprintf("%s %s: selector %v no longer matches its template labels %v (key %q)", kind, x.fr.Res.Name, selOf(x.out), podLabelsOf(x.out), key))
+						fmt.Sprintf("%s %s: selector %v no longer matches its template labels %v (key %c08q)", kind, x.fr.Res.Name, selOf(x.out), podLabelsOf(x.out), key))
 				}
 			}
 		}
@@ -1136,7 +1136,7 @@ func oracles08(r *Run, t *c08Tree, flat []flatRes, bo buildOut) {
 						continue
 					}
 					report("exact_locations", "C08/frame",
-						fmt.Sprintf("%s %s: value at %s changed from %q to %q", kind, x.fr.Res.Name, p, v, w))
+						fmt.Sprintf("%s %s: value at %s changed from %c08q to %c08q", kind, x.fr.Res.Name, p, v, w))
 				}
 			}
 			for p := range lo {
@@ -1175,7 +1175,7 @@ func oracles08(r *Run, t *c08Tree, flat []flatRes, bo buildOut) {
 			r.Count("oracle", "selects_preserved")
 			if ok, key := subKV(selOf(s.out), podLabelsOf(w.out)); !ok {
 				report("selects_preserved", classify("selects_preserved", s.fr, key, selIn),
-					fmt.Sprintf("%s %s selected the pods of %s %s before the build and no longer does: selector %v, pod labels %v (key %q)",
+					fmt.Sprintf("%s %s selected the pods of %s %s before the build and no longer does: selector %v, pod labels %v (key %c08q)",
 						s.fr.Res.Kind, s.fr.Res.Name, w.fr.Res.Kind, w.fr.Res.Name, selOf(s.out), podLabelsOf(w.out), key))
 			}
 		}
@@ -1186,12 +1186,12 @@ func oracles08(r *Run, t *c08Tree, flat []flatRes, bo buildOut) {
 
 type c08FilterCase struct {
 	Doc    string   `json:"doc"`
-	Labels []kv     `json:"labels"`
-	Fss    []fsSpec `json:"fss"`
+	Labels []c08kv     `json:"labels"`
+	Fss    []c08fsSpec `json:"fss"`
 	Anno   bool     `json:"anno"`
 }
 
-var c08RowPool = []fsSpec{
+var c08RowPool = []c08fsSpec{
 	{Version: "v1", Kind: "Service", Path: "spec/selector", Create: true},
 	{Version: "v1", Kind: "ReplicationController", Path: "spec/selector", Create: true},
 	{Kind: "Deployment", Path: "spec/selector/matchLabels", Create: true},
@@ -1223,13 +1223,13 @@ var c08OddPaths = []string{"spec/ports[]/labels", "metadata", "spec", "a/b", " s
 	"spec/-/x", "metadata/name", "spec/replicas", "kind/x", "spec/template[]/metadata/labels", "spec/selector[]", "*"}
 
 func genFilterCase(rng *Rng) c08FilterCase {
-	pods := [][]kv{}
+	pods := [][]c08kv{}
 	kind := rng.Pick(c08Kinds)
 	res := genRes(rng, kind, "r0", &pods)
 	c := c08FilterCase{Doc: res.Yaml, Labels: genPairs(rng, 0, 3), Anno: rng.Chance(30)}
 	n := 1 + rng.Intn(6)
 	for i := 0; i < n; i++ {
-		var f fsSpec
+		var f c08fsSpec
 		switch r := rng.Intn(100); {
 		case r < 70:
 			f = c08RowPool[rng.Intn(len(c08RowPool))]
@@ -1239,7 +1239,7 @@ func genFilterCase(rng *Rng) c08FilterCase {
 				f.Version = ""
 			}
 		case r < 85:
-			f = fsSpec{Path: rng.Pick(c08OddPaths), Create: rng.Bool()}
+			f = c08fsSpec{Path: rng.Pick(c08OddPaths), Create: rng.Bool()}
 		default:
 			f = c08RowPool[rng.Intn(len(c08RowPool))]
 			f.Kind, f.Group, f.Version = kind, "", ""
@@ -1262,7 +1262,7 @@ func genFilterCase(rng *Rng) c08FilterCase {
 	return c
 }
 
-func toFsSlice(l []fsSpec) types.FsSlice {
+func toFsSlice(l []c08fsSpec) types.FsSlice {
 	out := types.FsSlice{}
 	for _, f := range l {
 		out = append(out, types.FieldSpec{Gvk: resid.Gvk{Group: f.Group, Version: f.Version, Kind: f.Kind}, Path: f.Path, CreateIfNotPresent: f.Create})
@@ -1270,7 +1270,7 @@ func toFsSlice(l []fsSpec) types.FsSlice {
 	return out
 }
 
-func kvMap(l []kv) map[string]string {
+func kvMap(l []c08kv) map[string]string {
 	m := map[string]string{}
 	for _, e := range l {
 		m[e.K] = e.V
@@ -1325,7 +1325,7 @@ func runFilterCase(r *Run, c c08FilterCase) {
 	} else {
 		r.Count("filter_effect", "unchanged")
 	}
-	term := fmt.Sprintf("(CFilter %s %s %s %s %s)", coqPairs(c.Labels), coqFsList(c.Fss), d0, cls, after)
+	term := fmt.Sprintf("(CFilter %s %s %s %s %s)", c08coqPairs(c.Labels), coqFsList(c.Fss), d0, cls, after)
 	r.AddCase(term, map[string]interface{}{"filter": c}, changed)
 }
 
@@ -1380,7 +1380,7 @@ func runBuildCase(r *Run, t *c08Tree, toModel bool) {
 		case strings.Contains(bo.msg, "considering field"):
 			r.Count("build_error", "field-spec filter error")
 		default:
-			r.Count("build_error", "other: "+firstN(bo.msg, 60))
+			r.Count("build_error", "other: "+c08firstN(bo.msg, 60))
 		}
 	}
 	oracles08(r, t, flat, bo)
@@ -1400,7 +1400,7 @@ func runBuildCase(r *Run, t *c08Tree, toModel bool) {
 		r.AddEval(string(b), bo.cls == ClsOk)
 		return
 	}
-	lt, ok := coqLayer(t)
+	lt, ok := c08coqLayer(t)
 	if !ok {
 		r.Meta.Skipped++
 		return
@@ -1489,8 +1489,8 @@ func oracleFields08(r *Run, t *c08Tree, flat []flatRes, bo buildOut) {
 			continue
 		}
 		r.Count("oracle", "fields_only_add")
-		type rd func(*kyaml.Node) []kv
-		for name, f := range map[string]rd{"metadata.labels": func(n *kyaml.Node) []kv { return lmapOf(getAt(n, []string{"metadata", "labels"})) },
+		type rd func(*kyaml.Node) []c08kv
+		for name, f := range map[string]rd{"metadata.labels": func(n *kyaml.Node) []c08kv { return lmapOf(getAt(n, []string{"metadata", "labels"})) },
 			"selector": selOf, "pod template labels": podLabelsOf} {
 			with, without := f(a.YNode()), f(b.YNode())
 			for _, e := range without {
@@ -1500,7 +1500,7 @@ func oracleFields08(r *Run, t *c08Tree, flat []flatRes, bo buildOut) {
 						cls += "/default-row-shadowed-by-narrower-custom-spec"
 					}
 					r.Violation(OracleViolation{Law: "fields_only_add", Class: cls, Replay: t,
-						Detail: fmt.Sprintf("%s %s: label %q reaches %s without the custom `fields` of the labels entries but not with them (%v vs %v)",
+						Detail: fmt.Sprintf("%s %s: label %c08q reaches %s without the custom `fields` of the labels entries but not with them (%v vs %v)",
 							fr.Res.Kind, fr.Res.Name, e.K, name, without, with)})
 				}
 			}
@@ -1516,7 +1516,7 @@ func stripDirs(t *c08Tree) *c08Tree {
 	return out
 }
 
-func firstN(s string, n int) string {
+func c08firstN(s string, n int) string {
 	if len(s) > n {
 		return s[:n]
 	}
@@ -1558,7 +1558,7 @@ func runC08(r *Run, rng *Rng, tier string) error {
 	for i := 0; i < nBuild; i++ {
 		g := rng.Fork()
 		cnt := 0
-		runBuildCase(r, genTree(g, 1+g.Intn(3), &cnt, true), true)
+		runBuildCase(r, c08genTree(g, 1+g.Intn(3), &cnt, true), true)
 	}
 	for i := 0; i < nFilter; i++ {
 		runFilterCase(r, genFilterCase(rng.Fork()))
@@ -1566,7 +1566,7 @@ func runC08(r *Run, rng *Rng, tier string) error {
 	for i := 0; i < nSearch; i++ {
 		g := rng.Fork()
 		cnt := 0
-		runBuildCase(r, genTree(g, 1+g.Intn(3), &cnt, true), false)
+		runBuildCase(r, c08genTree(g, 1+g.Intn(3), &cnt, true), false)
 	}
 	return nil
 }
@@ -1596,7 +1596,7 @@ func replayC08(path string) (bool, string, error) {
 	}
 	if wrap.Filter != nil {
 		cls, doc, msg := execFilter(*wrap.Filter)
-		return cls == ClsPanic, fmt.Sprintf("class=%s msg=%q after=%s", cls, msg, docString(doc)), nil
+		return cls == ClsPanic, fmt.Sprintf("class=%s msg=%c08q after=%s", cls, msg, docString(doc)), nil
 	}
 	if t == nil {
 		return false, "", fmt.Errorf("replay file has neither a build tree nor a filter case")
@@ -1608,7 +1608,7 @@ func replayC08(path string) (bool, string, error) {
 	oracles08(r, t, flat, bo)
 	oracleFields08(r, t, flat, bo)
 	var b strings.Builder
-	fmt.Fprintf(&b, "class=%s msg=%q\n", bo.cls, bo.msg)
+	fmt.Fprintf(&b, "class=%s msg=%c08q\n", bo.cls, bo.msg)
 	for _, fr := range flat {
 		if o, ok := bo.outs[fr.Res.Name]; ok {
 			s, _ := o.String()
